@@ -392,6 +392,29 @@ func (Engine) Shrinks(sc *core.Scenario) []*core.Scenario {
 	return out
 }
 
+// SoloScenario implements core.CanonEngine for C07: key = "p<pool index>|<format>|<indent>".
+func (e Engine) SoloScenario(prop string, verifSeed int64, key string) *core.Scenario {
+	if prop != "C07" {
+		return nil
+	}
+	parts := strings.Split(key, "|")
+	if len(parts) != 3 {
+		return nil
+	}
+	var pi, indent int
+	fmt.Sscanf(parts[0], "p%d", &pi)
+	fmt.Sscanf(parts[2], "%d", &indent)
+	pool := c07Pool(verifSeed)
+	if pi < 0 || pi >= len(pool) {
+		return nil
+	}
+	sp := &Spec{Docs: []string{docToB64(pool[pi])}, Tasks: [][]Op{{{K: "Write", D: 0, A: parts[0], F: parts[1], I: indent}}}}
+	sc := &core.Scenario{V: 1, Property: "C07", Engine: "concur", VerifSeed: verifSeed, Run: -1, RunSeed: 1}
+	sc.Sched = verifsim.Config{Seed: 1, Policy: "serial", MaxSteps: 3000000, MapOrder: "sorted"}
+	sc.Spec = encodeSpec(sp)
+	return sc
+}
+
 func (e Engine) PerProcess(prop string) int {
 	switch prop {
 	case "C17", "C18", "C07":
@@ -411,6 +434,8 @@ func (e Engine) Execute(sc *core.Scenario) *core.Result {
 		return execC11(sc)
 	case "C12":
 		return execC12(sc)
+	case "C07":
+		return execC07(sc)
 	}
 	return &core.Result{Harness: "concur: no executor for " + sc.Property}
 }
@@ -425,6 +450,8 @@ func (e Engine) Generate(prop string, verifSeed int64, tier string, idx int) *co
 		return genC11(verifSeed, tier, idx)
 	case "C12":
 		return genC12(verifSeed, tier, idx)
+	case "C07":
+		return genC07(verifSeed, tier, idx)
 	}
 	return nil
 }
@@ -466,6 +493,11 @@ func (e Engine) Describe(prop string) core.Description {
 		d.Rule = "a heap of live values (nodes, edges, persons, external references, node lists from the schema-driven generator); seeded histories of Copy (all five kinds), Union, Intersect with operands drawn from the heap, and mutate(v, path) where path ranges over every field of every message type at every nesting level (enumerated by reflection: set scalars, overwrite list elements, append, set/overwrite/delete map entries); two shapes: single-task histories of 3-15 steps with the model compared after every step, and two-task runs in which one task mutates every path of derived values while the other reads their sources under the race detector; non-trivial when at least one derived value exists and at least one mutation was applied"
 		d.Assumptions = append(d.Assumptions, "the reference model of a slot is proto.Clone of what the implementation returned; union and intersection are not re-implemented (that is C09/C10)",
 			"a fresh copy must satisfy Equal where the type has one (Node, Edge, NodeList) and dump equality otherwise (Person, ExternalReference)")
+	case "C07":
+		d.Rule = "a fixed pool per VERIF_SEED of 24 generated documents plus a hostile pool (absent metadata / node list / both, document decoded from zero bytes, document types without name/description/type, enum numbers outside every table, empty and duplicate identifiers, dangling edge ends and roots, self loops, cycles, no root, many roots, out-of-range timestamps); one fresh process per run; a run is a history of 1-10 writes in any registered format and indentation over 1-3 tasks with simulated-clock jumps (forwards and backwards) and a simulator-chosen map iteration order per range; T1 totality per call, T2 canonical output identical inside the history and (aggregated by the driver over the whole batch) across all histories and equal to a history of length one in a fresh process; non-trivial when the history holds >= 2 serialisations through the same driver family"
+		d.Assumptions = append(d.Assumptions, "the totality clause over ALL document values is a statement about inputs; it is decided here only on the documents the histories contain",
+			"canonical output: JSON decoded, creation timestamp member removed, every array sorted (weaker than 'set-valued arrays only', can never raise a false alarm)")
+		d.NoSimTime = ""
 	}
 	return d
 }
